@@ -64,6 +64,8 @@ def _ndt(dt):
 
 def _isfloat_dt(dt):
     dt = _ndt(dt)
+    if dt is None:
+        return False
     try:
         return dt in _FLOATS
     except TypeError:
@@ -929,22 +931,26 @@ def argmin(a, axis=None):
     if axis is not None and _np.asarray(a).ndim > 1:
         raise Unsupported("argmin with axis")
     cells = _cells(a)
-    best = 0
-    for i in range(1, len(cells)):
-        if bool(cells[i] < cells[best]):     # forks on symbolic data; first minimum wins (numpy)
-            best = i
-    return best
+    if not cells:
+        raise ValueError("attempt to get argmin of an empty sequence")
+    m = _red_cells(cells, [SB(c=True)] * len(cells), "min")
+    for i in range(len(cells) - 1):
+        if bool(cells[i] == m):          # first minimum wins (numpy); forks linearly on symbolic data
+            return i
+    return len(cells) - 1
 
 
 def argmax(a, axis=None):
     if not _is_obj(a):
         return _np.argmax(_np.asarray(a), axis=axis)
     cells = _cells(a)
-    best = 0
-    for i in range(1, len(cells)):
-        if bool(cells[i] > cells[best]):
-            best = i
-    return best
+    if not cells:
+        raise ValueError("attempt to get argmax of an empty sequence")
+    m = _red_cells(cells, [SB(c=True)] * len(cells), "max")
+    for i in range(len(cells) - 1):
+        if bool(cells[i] == m):
+            return i
+    return len(cells) - 1
 
 
 def bincount(x, weights=None, minlength=0):
